@@ -215,7 +215,12 @@ func (v *V2) RecoverIndex(buf []byte, startFileOffset uint32, baseEntryOffset in
 		var err error
 		if payloadSize, _, payloadCrc, err = v.ReadHeaderWithValidation(buf, newFileOffset); err != nil {
 			if errors.Is(err, ErrEmptyPayload) {
-				// we might read the end of the segment.
+				// we might read the end of the segment. Though, a segment that holds entries
+				// cannot end at or below the commit offset: a committed entry is missing
+				// (e.g. its header was zeroed)
+				if commitOffset != nil && currentEntryOffset > baseEntryOffset && currentEntryOffset <= *commitOffset {
+					return nil, 0, 0, 0, errors.Wrapf(ErrDataCorrupted, "entryOffset: %d", currentEntryOffset)
+				}
 				break
 			}
 			// data corruption
